@@ -316,10 +316,28 @@ func (w *Walker) condFailGuard(ev *Event, subs []string, rejectWhen bool, condTe
 				if !onlyFailureExits(b.Succs[idx], b) {
 					continue
 				}
+				// every condition guarding the test also holds at the event: whenever the
+				// event executes, the test was executed before it
+				evFacts := map[string]bool{}
+				for _, ft := range w.FactsAt(ev.Fr, ev.Site) {
+					evFacts[ft.String()] = true
+				}
+				subset, hasCond := true, false
+				var under []string
 				for _, ft := range w.blockFacts(f, b, 0) {
-					if ft.Holds == condHolds && strings.Contains(ft.Text, condText) && !isOutcomeFact(ft.Text) {
-						return txt + " tested under " + ft.String() + " at " + w.cx.P.Pos(ifi.Pos()), true
+					if isOutcomeFact(ft.Text) {
+						continue
 					}
+					if !evFacts[ft.String()] {
+						subset = false
+					}
+					if ft.Holds == condHolds && strings.Contains(ft.Text, condText) {
+						hasCond = true
+					}
+					under = append(under, ft.String())
+				}
+				if subset && hasCond {
+					return txt + " tested under {" + strings.Join(under, " ∧ ") + "} at " + w.cx.P.Pos(ifi.Pos()), true
 				}
 			}
 		}
